@@ -1485,4 +1485,186 @@ theorem encGroupFields_layout (inst : Seg) :
       · subst hx; exact ⟨by simp, hl, hb⟩
       · exact ⟨by simp [(h2 x hx).1], (h2 x hx).2⟩
 
+/-! ### whole messages -/
+
+/-- the dictionary of a message class: all tags of header, body and trailer (nested groups included) pairwise distinct -/
+def wfDef (d : MsgDef) : Bool := decide (deepTagsL (d.hdr ++ d.body ++ d.trl)).Nodup
+
+/-- a message built from valid values: every segment holds values its entries accept (text ASCII without SOH,
+    group instances with distinct known keys that contain the group's first entry), at least one field is set -/
+def wfMsg (d : MsgDef) (m : Msg) : Bool :=
+  wfSeg d.hdr m.hdr && wfSeg d.body m.body && wfSeg d.trl m.trl &&
+  !(m.hdr.isEmpty && m.body.isEmpty && m.trl.isEmpty)
+
+/-- the decoded form of `m`: top-level segments in wire (= assignment) order, group instances in dictionary order -/
+def canonMsg (d : MsgDef) (m : Msg) : Msg :=
+  { hdr := canonSeg d.hdr m.hdr, body := canonSeg d.body m.body, trl := canonSeg d.trl m.trl }
+
+theorem wfDef_parts {d : MsgDef} (h : wfDef d = true) :
+    (deepTagsL d.hdr).Nodup ∧ (deepTagsL d.body).Nodup ∧ (deepTagsL d.trl).Nodup ∧
+    (∀ t ∈ deepTagsL d.body, t ∉ deepTagsL d.hdr) ∧ (∀ t ∈ deepTagsL d.trl, t ∉ deepTagsL d.hdr) ∧
+    (∀ t ∈ deepTagsL d.trl, t ∉ deepTagsL d.body) := by
+  simp only [wfDef, decide_eq_true_eq, deepTagsL_append] at h
+  rw [List.nodup_append] at h
+  obtain ⟨h1, h2, h3⟩ := h
+  rw [List.nodup_append] at h1
+  obtain ⟨h11, h12, h13⟩ := h1
+  refine ⟨h11, h12, h2, ?_, ?_, ?_⟩
+  · intro t ht hh; exact h13 t hh t ht rfl
+  · intro t ht hh; exact h3 t (by simp [hh]) t ht rfl
+  · intro t ht hh; exact h3 t (by simp [hh]) t ht rfl
+
+/-- the bytes of a well-formed message are its fields, each followed by SOH: header, body, trailer -/
+theorem encMsg_wire {d : MsgDef} {m : Msg} {bs : Bytes} (hd : wfDef d = true) (hm : wfMsg d m = true)
+    (henc : encMsg d m = .ok bs) :
+    ∃ fh fb ft, encSegFields d.hdr m.hdr = .ok fh ∧ encSegFields d.body m.body = .ok fb ∧
+      encSegFields d.trl m.trl = .ok ft ∧ bs = termAll fh ++ termAll fb ++ termAll ft := by
+  obtain ⟨nh, nb, nt, _, _, _⟩ := wfDef_parts hd
+  simp only [wfMsg, Bool.and_eq_true, Bool.not_eq_true', Bool.and_eq_false_iff] at hm
+  obtain ⟨⟨⟨wh, wb⟩, wt⟩, hne⟩ := hm
+  simp only [encMsg, encSeg] at henc
+  obtain ⟨h, hh, henc⟩ := bind_ok henc
+  obtain ⟨fh, hfh, hh⟩ := bind_ok hh
+  obtain ⟨b, hb, henc⟩ := bind_ok henc
+  obtain ⟨fb, hfb, hb⟩ := bind_ok hb
+  obtain ⟨t, ht, henc⟩ := bind_ok henc
+  obtain ⟨ft, hft, ht⟩ := bind_ok ht
+  simp only [pure_eq_ok] at hh hb ht henc
+  injection hh with hh; injection hb with hb; injection ht with ht; injection henc with henc
+  subst hh; subst hb; subst ht
+  obtain ⟨gh, eh⟩ := encSegFields_good d.hdr nh m.hdr fh wh hfh
+  obtain ⟨gb, eb⟩ := encSegFields_good d.body nb m.body fb wb hfb
+  obtain ⟨gt, et⟩ := encSegFields_good d.trl nt m.trl ft wt hft
+  refine ⟨fh, fb, ft, hfh, hfb, hft, ?_⟩
+  rw [← henc, assemble _ _ _ (joinSOH_nil_or_good fh gh) (joinSOH_nil_or_good fb gb) (joinSOH_nil_or_good ft gt),
+    termSeg_joinSOH fh gh, termSeg_joinSOH fb gb, termSeg_joinSOH ft gt]
+  intro ⟨a1, a2, a3⟩
+  have e1 : m.hdr = [] := eh.mp ((joinSOH_eq_nil_iff fh (fun x hx => (gh x hx).1)).mp a1)
+  have e2 : m.body = [] := eb.mp ((joinSOH_eq_nil_iff fb (fun x hx => (gb x hx).1)).mp a2)
+  have e3 : m.trl = [] := et.mp ((joinSOH_eq_nil_iff ft (fun x hx => (gt x hx).1)).mp a3)
+  simp [e1, e2, e3] at hne
+
+/-- what follows a segment on the wire begins with a tag of a later segment -/
+theorem starts_of_fields {es : List Entry} {s : Seg} {fbs : List Bytes} {P : Nat → Prop} {rest : Bytes}
+    (hwf : wfSeg es s = true) (henc : encSegFields es s = .ok fbs) (hP : ∀ t ∈ deepTagsL es, P t)
+    (hrest : Starts P rest) : Starts P (termAll fbs ++ rest) := by
+  simp only [wfSeg, Bool.and_eq_true, decide_eq_true_eq] at hwf
+  obtain ⟨fs, h1, h2, _, _⟩ := encSegFields_items es s fbs hwf.1 henc
+  have hw : termAll fbs = wireItems fs := by simp [wireItems, h1]
+  rw [hw]
+  apply starts_wireItems fs rest (fun x hx => (h2 x hx).2.2) _ hrest
+  intro x hx
+  exact hP _ (deepTags_sub_deepTagsL (h2 x hx).1 _ (tag_mem_deepTags _))
+
+/-! ### equality with group instances compared as dicts (the repaired `__eq__`) -/
+
+theorem valEqDAux_eq (a b : Val) : valEqDAux a b = valEqD a b := by
+  cases a <;> cases b <;> simp [valEqDAux, valEqD]
+
+theorem keys_canonFields_eq (es : List Entry) (inst : Seg) :
+    keysOf (canonFields es inst) = (es.filter (fun e => hasKey inst e.tag)).map Entry.tag := by
+  induction es with
+  | nil => simp [canonFields, keysOf]
+  | cons x xs ih =>
+    simp only [canonFields]
+    cases hl : lookupV inst x.tag with
+    | none =>
+      have hk : hasKey inst x.tag = false := by simp [hasKey, hl]
+      simp [hk, ih]
+    | some v =>
+      have hk : hasKey inst x.tag = true := by simp [hasKey, hl]
+      simp only [keysOf, List.map_cons, List.filter_cons, hk, if_true] at ih ⊢
+      rw [ih]
+
+theorem wfFields_keys {es : List Entry} {s : Seg} (h : wfFields es s = true) : ∀ t ∈ keysOf s, t ∈ tagsOf es := by
+  intro t ht
+  simp only [keysOf, List.mem_map] at ht
+  obtain ⟨p, hp, rfl⟩ := ht
+  obtain ⟨e, hle, _⟩ := wfFields_mem h (show (p.1, p.2) ∈ s from hp)
+  obtain ⟨hm, htag⟩ := lookupE_some hle
+  exact List.mem_map.mpr ⟨e, hm, htag⟩
+
+/-- the canonical instance has as many items as the original -/
+theorem canonFields_length {sub : List Entry} (hnd : (tagsOf sub).Nodup) {inst : Seg} (hwf : wfFields sub inst = true)
+    (hk : (keysOf inst).Nodup) : (canonFields sub inst).length = inst.length := by
+  have h1 : (keysOf (canonFields sub inst)).Nodup := by
+    rw [keys_canonFields_eq]
+    exact (List.filter_sublist.map Entry.tag).nodup hnd
+  have hperm : (keysOf (canonFields sub inst)).Perm (keysOf inst) := by
+    rw [List.perm_ext_iff_of_nodup h1 hk]
+    intro t
+    rw [keys_canonFields_eq]
+    constructor
+    · intro ht
+      obtain ⟨e, he, rfl⟩ := List.mem_map.mp ht
+      simp only [List.mem_filter] at he
+      exact hasKey_iff.mp he.2
+    · intro ht
+      obtain ⟨e, he, rfl⟩ := List.mem_map.mp (wfFields_keys hwf t ht)
+      exact List.mem_map.mpr ⟨e, List.mem_filter.mpr ⟨he, hasKey_iff.mpr ht⟩, rfl⟩
+  have := hperm.length_eq
+  simpa [keysOf] using this
+
+def EqDOK (e : Entry) : Prop := ∀ v, wfVal e v = true → valEqD (canonVal e v) v = true
+
+theorem eqDOK_all : ∀ e : Entry, (deepTags e).Nodup → EqDOK e := by
+  apply entry_ind
+  · intro t ty r _ v hwf
+    simp only [wfVal] at hwf
+    cases ty <;> cases v <;> simp [wfPrim] at hwf <;> simp [canonVal, valEqD, primEq]
+  · intro t sub r ih hnd v hwf
+    simp only [deepTags, List.nodup_cons] at hnd
+    have htn := nodup_tagsOf hnd.2
+    cases v with
+    | grp insts =>
+      simp only [wfVal] at hwf
+      simp only [canonVal, valEqD]
+      induction insts with
+      | nil => simp [instsEqD]
+      | cons inst insts ihi =>
+        simp only [wfInsts, Bool.and_eq_true, decide_eq_true_eq] at hwf
+        obtain ⟨⟨⟨hwff, _⟩, hkeys⟩, hwf'⟩ := hwf
+        simp only [List.map_cons, instsEqD, Bool.and_eq_true, decide_eq_true_eq]
+        refine ⟨⟨canonFields_length htn hwff hkeys, ?_⟩, ihi hwf'⟩
+        -- every item of the canonical instance is in the original with an equal value
+        have key : ∀ es' : List Entry, (∀ e ∈ es', e ∈ sub) → subDictD (canonFields es' inst) inst = true := by
+          intro es'
+          induction es' with
+          | nil => intro _; simp [canonFields, subDictD]
+          | cons x xs ihx =>
+            intro hsub
+            have hx : x ∈ sub := hsub x (by simp)
+            simp only [canonFields]
+            cases hl : lookupV inst x.tag with
+            | none => exact ihx (fun e he => hsub e (by simp [he]))
+            | some v =>
+              simp only [subDictD, hl, Bool.and_eq_true]
+              refine ⟨?_, ihx (fun e he => hsub e (by simp [he]))⟩
+              rw [valEqDAux_eq]
+              obtain ⟨e', hle, hwv⟩ := wfFields_mem hwff (lookupV_mem hl)
+              have : e' = x := by
+                have := lookupE_mem htn hx
+                rw [hle] at this
+                injection this
+              subst this
+              exact ih e' hx (nodup_deepTags_of_mem hx hnd.2) v hwv
+        exact key sub (fun e he => he)
+    | int _ => simp [wfVal] at hwf
+    | flt _ => simp [wfVal] at hwf
+    | bool _ => simp [wfVal] at hwf
+    | str _ => simp [wfVal] at hwf
+
+theorem segEqTop_canon (es : List Entry) (hnd : (deepTagsL es).Nodup) :
+    ∀ (s : Seg), wfFields es s = true → segEqTop (canonSeg es s) s = true
+  | [], _ => by simp [canonSeg, segEqTop]
+  | (k, v) :: s, hwf => by
+    simp only [wfFields, Bool.and_eq_true] at hwf
+    cases hl : lookupE es k with
+    | none => rw [hl] at hwf; simp at hwf
+    | some e =>
+      rw [hl] at hwf
+      have ih := segEqTop_canon es hnd s hwf.2
+      simp only [canonSeg, List.map_cons, hl, segEqTop, beq_self_eq_true, Bool.true_and, Bool.and_eq_true] at ih ⊢
+      exact ⟨eqDOK_all e (nodup_deepTags_of_mem (lookupE_some hl).1 hnd) v hwf.1, ih⟩
+
 end NasdaqModel.Fix
